@@ -268,14 +268,14 @@ def _prefixes(ctx, rng, stem):
             a, b = _load(comp), _load(exp)
         except Exception as e:
             ctx.violate("prefixed schema or its expansion failed to load: %s: %s" % (type(e).__name__, e), {"composed": comp, "expanded": exp},
-                        signature="C11:prefix:load")
+                        signature="%s:prefix:load" % ctx.prop)
             continue
         for t in texts:
             ra, rb = _behaves(a, t), _behaves(b, t)
             ctx.evaluations += 1
             if ra != rb:
                 ctx.violate("a prefixed schema behaves differently from the same schema with absolute names on %r: %r vs %r" % (t, ra, rb),
-                            {"composed": comp, "expanded": exp, "text": t}, signature="C11:prefix:behaviour")
+                            {"composed": comp, "expanded": exp, "text": t}, signature="%s:prefix:behaviour" % ctx.prop)
                 break
 
 
